@@ -309,7 +309,7 @@ def run(ctx, col, tier):
              "preserve order (no unordered executor API)", floor=7)
     col.not_decided += ["directory walking (os.walk order)", "what process pools do with exceptions"]
     col.assumptions += ["Executor.map and tqdm's process_map return results in input order (documented)"]
-    iter_rule(ctx, col)
-    cache_rule(ctx, col)
-    chain_rule(ctx, col)
-    rows_rule(ctx, col)
+    col.guard(iter_rule, ctx, col)
+    col.guard(cache_rule, ctx, col)
+    col.guard(chain_rule, ctx, col)
+    col.guard(rows_rule, ctx, col)
